@@ -89,7 +89,7 @@ TECH_SUFFIX["C09"] += "; abandoned join() / send() futures (also inside long una
 TECH_SUFFIX["C10"] += "; abandoned join() / send() futures: the windows of every later uplink are judged as usual"
 TECH_SUFFIX["C11"] = TECH_SUFFIX.get("C11", "") + "; JoinAccepts heard between the windows of a Class C join attempt (a device that becomes joined upon one must hold the session it defines)"
 TECH_SUFFIX["C14"] += "; a transport fault that hits while the driver reads the outcome of an operation the chip has already ended (RxDone / timeout / CadDone / TxDone) must not leave the driver believing the operation is armed"
-TECH_SUFFIX["C20"] += "; stored documents in which a struct is given as the sequence of its field values"
+TECH_SUFFIX["C20"] += "; stored documents in which a struct is given as the sequence of its field values; histories with abandoned (dropped) send() futures before the power cut"
 
 
 def main():
